@@ -125,7 +125,29 @@ func containsEither(body, needle string) bool {
 
 // checkC17 executes a cell and applies the reference model.
 func checkC17(sc *Scenario, acc *Acc) (*c17Fail, bool, bool) {
-	w, ok := setupWorld(sc)
+	var w *World
+	var ok bool
+	if len(sc.Prior) > 0 {
+		// chained: earlier cells (other failure points, other debug mode) ran in this
+		// process before; nothing is reset in between
+		for i, prior := range sc.Prior {
+			var pw *World
+			if i == 0 {
+				pw, ok = setupWorld(prior)
+			} else {
+				pw, ok = setupWorldKeep(prior)
+			}
+			if !ok {
+				return nil, false, true
+			}
+			for _, op := range prior.Ops[:2] {
+				pw.RunOp(op, Budget)
+			}
+		}
+		w, ok = setupWorldKeep(sc)
+	} else {
+		w, ok = setupWorld(sc)
+	}
 	if !ok {
 		return nil, false, true
 	}
@@ -152,6 +174,15 @@ func checkC17(sc *Scenario, acc *Acc) (*c17Fail, bool, bool) {
 		}
 		if resp.Body != str.Out {
 			return &c17Fail{"rendering succeeds but the body is not the complete rendered page", "success-body-differs", short(str.Out), short(resp.Body)}, false, false
+		}
+		if !cfg.Debug {
+			// the generated pages never print paths themselves
+			for _, pr := range [][2]string{{"template-directory", tpldir}, {"cwd", sc.Cwd}} {
+				what, needle := pr[0], pr[1]
+				if containsEither(resp.Body, needle) {
+					return &c17Fail{"debug mode is off but the body contains a file path (" + what + ")", "leak-" + what + "-in-page", "no occurrence of " + needle, short(resp.Body)}, false, false
+				}
+			}
 		}
 	} else {
 		// failure
@@ -193,13 +224,15 @@ func checkC17(sc *Scenario, acc *Acc) (*c17Fail, bool, bool) {
 			}
 		}
 		if !cfg.Debug {
-			for what, needle := range map[string]string{"message": str.Msg, "path": str.Path, "template-directory": tpldir, "cwd": sc.Cwd} {
+			for _, pr := range [][2]string{{"message", str.Msg}, {"path", str.Path}, {"template-directory", tpldir}, {"cwd", sc.Cwd}} {
+				what, needle := pr[0], pr[1]
 				if containsEither(resp.Body, needle) {
 					return &c17Fail{"debug mode is off but the body contains the error " + what, "leak-" + what, "no occurrence of " + needle, short(resp.Body)}, false, false
 				}
 			}
 		} else {
-			for what, needle := range map[string]string{"message": str.Msg, "path": str.Path, "line": fmt.Sprint(str.Line)} {
+			for _, pr := range [][2]string{{"message", str.Msg}, {"path", str.Path}, {"line", fmt.Sprint(str.Line)}} {
+				what, needle := pr[0], pr[1]
 				if !containsEither(resp.Body, needle) {
 					return &c17Fail{"debug mode is on but the body lacks the error " + what, "debug-missing-" + what, needle, short(resp.Body)}, false, false
 				}
@@ -287,6 +320,52 @@ func (p c17) Run(seed uint64, run int, tier string, acc *Acc) *Violation {
 			}
 		}
 	}
+	// chained pass: per custom-page kind (that field is sticky across NewTemplate calls by
+	// design), the cells run one after another in ONE process without reset; each cell is
+	// judged by the same model. Catches anything remembered across renders or loads.
+	for _, custom := range []string{"", "valid", "failing", "missing"} {
+		var chain []*Scenario
+		n := 0
+		for fp := nfp - 1; fp >= -2; fp-- {
+			for _, debug := range []bool{true, false} {
+				n++
+				if n > 10 {
+					break
+				}
+				cell := c17Cell{Page: page, FP: fp, Kind: (fp + 7) % len(failingStmts), Debug: debug, Custom: custom}
+				sc := buildC17(t, cell)
+				sc.Seed, sc.Run = seed, run
+				sc.Family = "chained-cell"
+				sc.Prior = append([]*Scenario{}, chain...)
+				f, _, bad := checkC17(sc, acc)
+				acc.Probe("chained-cells", 1)
+				if !bad && f != nil {
+					sig := "chained " + cell.class() + " clause=" + f.what
+					if !seen[sig] {
+						seen[sig] = true
+						// keep only the last predecessor if that is enough
+						if len(sc.Prior) > 1 {
+							s2 := sc.Clone()
+							s2.Prior = s2.Prior[len(s2.Prior)-1:]
+							if f2, _, bad2 := checkC17(s2, nil); !bad2 && f2 != nil && f2.what == f.what {
+								sc, f = s2, f2
+							}
+						}
+						v := &Violation{Prop: "C17", Clause: f.clause + " (after earlier renders in the same process)", Sig: sig, Scenario: sc, Expected: f.exp, Got: f.got,
+							Detail: fmt.Sprintf("page %q, failure point %d, config %+v, after %d earlier cell(s)", page, fp, *sc.Setup[0].Cfg, len(sc.Prior))}
+						if first == nil {
+							first = v
+						} else {
+							acc.Viol = append(acc.Viol, v)
+						}
+					}
+				}
+				plain := sc.Clone()
+				plain.Prior = nil
+				chain = append(chain, plain)
+			}
+		}
+	}
 	if run%16 == 0 {
 		acc.Sample(map[string]any{"page": page, "failure_points": nfp, "cells": cells, "page_source": Instantiate(t.Files[t.FileOf(page)].Data, 0, "<<FP0>>"), "config": t.Cfg})
 	}
@@ -302,5 +381,8 @@ func (p c17) Replay(sc *Scenario, acc *Acc) *Violation {
 		return nil
 	}
 	cls, _ := sc.Extra["cell"].(string)
+	if len(sc.Prior) > 0 {
+		cls = "chained " + cls
+	}
 	return &Violation{Prop: "C17", Clause: f.clause, Sig: cls + " clause=" + f.what, Scenario: sc, Expected: f.exp, Got: f.got}
 }
